@@ -155,6 +155,6 @@ def chartOk (g : Game) (c : Chart) : Bool :=
 
 def setOk (k : SetKind) (g : Game) (s : MapSet) : Bool :=
   s.maps.all (chartOk g) &&
-  (if k = .sm then s.offset.isSome && s.sampleStart.isSome && s.sampleLength.isSome else true)
+  (if k = .sm then s.sampleStart.isSome && s.sampleLength.isSome else true)
 
 end Reamber.Rate
